@@ -178,4 +178,147 @@ Section Order.
       rewrite (H s (or_introl eq_refl)). apply IH. intros d Hd. apply H. now right. }
     rewrite E. reflexivity.
   Qed.
+
+  (* ---------------------------------------------------------------- the order respects the mentions *)
+  Definition mentions (v w : N) : Prop := exists d, decl_of v decls = Some d /\ In w (mentioned d).
+
+  Inductive reach : N -> N -> Prop :=
+  | reach_refl v : reach v v
+  | reach_step u v w : mentions u v -> reach v w -> reach u w.
+
+  Lemma reach_trans a b c : reach a b -> reach b c -> reach a c.
+  Proof. induction 1; intros H'; [exact H'|]. eapply reach_step; eauto. Qed.
+
+  Definition before (a b : stmt) (l : list stmt) : Prop := exists l1 l2 l3, l = l1 ++ a :: l2 ++ b :: l3.
+
+  Lemma before_app a b l r : before a b l -> before a b (l ++ r).
+  Proof. intros (l1 & l2 & l3 & ->). exists l1, l2, (l3 ++ r). now rewrite <- !app_assoc, <- !app_comm_cons, <- app_assoc. Qed.
+
+  Lemma before_snoc a b l : In a l -> before a b (l ++ [b]).
+  Proof. intros H. apply in_split in H as (l1 & l2 & ->). exists l1, l2, []. now rewrite <- app_assoc. Qed.
+
+  (* the declaration of v stands after the declaration of everything it mentions, as far as that does not mention v back *)
+  Definition ordered_var (v : N) (l : list stmt) : Prop :=
+    forall d w dw, decl_of v decls = Some d -> In w (mentioned d) -> decl_of w decls = Some dw -> ~ reach w v -> before dw d l.
+
+  Definition order_ok (P : list N) (st : dstate) : Prop := forall v, In v (fst st) -> ~ In v P -> ordered_var v (snd st).
+
+  (* the number of declarations not yet marked *)
+  Definition unmarked (vis : list N) : nat := length (filter (fun k => negb (existsb (N.eqb k) vis)) (map fst decls)).
+
+  Lemma filter_le {A} (p q : A -> bool) l : (forall x, q x = true -> p x = true) -> length (filter q l) <= length (filter p l).
+  Proof.
+    intros H. induction l as [|x l IH]; cbn [filter]; [lia|]. destruct (q x) eqn:Q; [rewrite (H x Q); cbn; lia|].
+    destruct (p x); cbn; lia.
+  Qed.
+
+  Lemma filter_lt {A} (p q : A -> bool) l x :
+    (forall y, q y = true -> p y = true) -> In x l -> p x = true -> q x = false -> length (filter q l) < length (filter p l).
+  Proof.
+    intros H. induction l as [|y l IH]; intros Hin Px Qx; [destruct Hin|]. cbn [filter]. destruct Hin as [->|Hin].
+    - rewrite Px, Qx. cbn. pose proof (filter_le p q l H). lia.
+    - specialize (IH Hin Px Qx). destruct (q y) eqn:Q; [rewrite (H y Q); cbn; lia|]. destruct (p y); cbn; lia.
+  Qed.
+
+  Lemma existsb_eqb_In k vis : existsb (N.eqb k) vis = true <-> In k vis.
+  Proof.
+    rewrite existsb_exists. split; [intros (x & Hx & E); apply N.eqb_eq in E; now subst|intros H; exists k; split; [exact H|apply N.eqb_refl]].
+  Qed.
+
+  Lemma unmarked_mono vis vis' : incl vis vis' -> unmarked vis' <= unmarked vis.
+  Proof.
+    intros H. apply filter_le. intros k Hk. apply negb_true_iff in Hk. apply negb_true_iff.
+    destruct (existsb (N.eqb k) vis) eqn:E; [|reflexivity]. apply existsb_eqb_In in E. apply H in E. apply existsb_eqb_In in E. congruence.
+  Qed.
+
+  Lemma unmarked_mark var d vis : decl_of var decls = Some d -> ~ In var vis -> unmarked (var :: vis) < unmarked vis.
+  Proof.
+    intros Hd Hn. apply (filter_lt _ _ _ var).
+    - intros k Hk. apply negb_true_iff in Hk. apply negb_true_iff. cbn [existsb] in Hk. apply orb_false_iff in Hk. tauto.
+    - pose proof (decl_of_spec var decls) as X. rewrite Hd in X. apply in_map_iff. exists (var, d). auto.
+    - apply negb_true_iff. destruct (existsb (N.eqb var) vis) eqn:E; [|reflexivity]. apply existsb_eqb_In in E. contradiction.
+    - apply negb_false_iff. cbn [existsb]. rewrite N.eqb_refl. reflexivity.
+  Qed.
+
+  Lemma visit_order : forall fuel var P st,
+    marked_ok P st -> order_ok P st -> (forall p, In p P -> reach p var) -> unmarked (fst st) < fuel ->
+    let st' := visit fuel decls var st in
+    marked_ok P st' /\ order_ok P st' /\ incl (fst st) (fst st') /\ (exists r, snd st' = snd st ++ r) /\
+    (decl_of var decls <> None -> In var (fst st')).
+  Proof.
+    induction fuel as [|f IH]; intros var P st M O Pa Hf; [lia|]. cbn [visit].
+    destruct (decl_of var decls) as [d|] eqn:Ed.
+    2:{ split; [exact M|]. split; [exact O|]. split; [apply incl_refl|]. split; [exists []; now rewrite app_nil_r|]. intros X; contradiction. }
+    destruct (existsb (N.eqb var) (fst st)) eqn:Ev.
+    { split; [exact M|]. split; [exact O|]. split; [apply incl_refl|]. split; [exists []; now rewrite app_nil_r|].
+      intros _. now apply existsb_eqb_In. }
+    assert (Nv : ~ In var (fst st)) by (intros X; apply existsb_eqb_In in X; congruence).
+    set (st1 := (var :: fst st, snd st)).
+    assert (L : forall l st0, marked_ok (var :: P) st0 -> order_ok (var :: P) st0 -> incl (fst st1) (fst st0) ->
+                (forall o, In o l -> mentions var o) ->
+                let st2 := fold_left (fun st0 o => visit f decls o st0) l st0 in
+                marked_ok (var :: P) st2 /\ order_ok (var :: P) st2 /\ incl (fst st0) (fst st2) /\ (exists r, snd st2 = snd st0 ++ r) /\
+                (forall o, In o l -> decl_of o decls <> None -> In o (fst st2))).
+    { induction l as [|o l IHl]; intros st0 M0 O0 I0 Hm; cbn [fold_left].
+      - split; [exact M0|]. split; [exact O0|]. split; [apply incl_refl|]. split; [exists []; now rewrite app_nil_r|]. intros o [].
+      - destruct (IH o (var :: P) st0 M0 O0) as (M1 & O1 & I1 & (r1 & R1) & V1).
+        { intros p [<-|Hp]; [eapply reach_step; [apply Hm; now left|apply reach_refl]|].
+          eapply reach_trans; [exact (Pa p Hp)|]. eapply reach_step; [apply Hm; now left|apply reach_refl]. }
+        { pose proof (unmarked_mono _ _ I0). pose proof (unmarked_mark var d (fst st) Ed Nv). cbn [fst st1] in *. lia. }
+        destruct (IHl _ M1 O1 (incl_tran I0 I1) (fun o' H' => Hm o' (or_intror H'))) as (M2 & O2 & I2 & (r2 & R2) & V2).
+        split; [exact M2|]. split; [exact O2|]. split; [eapply incl_tran; eassumption|].
+        split; [exists (r1 ++ r2); rewrite R2, R1, app_assoc; reflexivity|].
+        intros o' [<-|H'] Hd'; [apply I2; now apply V1|now apply V2]. }
+    destruct (L (mentioned d) st1) as (M2 & O2 & I2 & (r2 & R2) & V2).
+    { intros v [<-|Hv]; [left; now left|]. destruct (M v Hv) as [H|H]; [left; now right|now right]. }
+    { intros v Hv Np. destruct Hv as [<-|Hv]; [exfalso; apply Np; now left|]. apply O; [exact Hv|]. intros X. apply Np. now right. }
+    { apply incl_refl. }
+    { intros o Ho. exists d. auto. }
+    set (st2 := fold_left (fun st0 o => visit f decls o st0) (mentioned d) st1) in *.
+    cbn [fst snd]. split; [|split; [|split; [|split]]].
+    - intros v Hv. destruct (M2 v Hv) as [[<-|H]|(d' & Hd' & Hin)].
+      + right. exists d. split; [exact Ed|]. apply in_or_app. right. now left.
+      + now left.
+      + right. exists d'. split; [exact Hd'|]. apply in_or_app. now left.
+    - intros v Hv Np. destruct (N.eq_dec v var) as [->|Ne].
+      + (* the declaration that is pushed now *)
+        intros d0 w dw Hd0 Hw Hdw Nr. rewrite Ed in Hd0. injection Hd0 as <-.
+        apply before_snoc.
+        assert (Hwm : In w (fst st2)) by (apply V2; [exact Hw|congruence]).
+        destruct (M2 w Hwm) as [[<-|Hp]|(d' & Hd' & Hin)].
+        * exfalso. apply Nr. apply reach_refl.
+        * exfalso. apply Nr. exact (Pa w Hp).
+        * rewrite Hdw in Hd'. injection Hd' as <-. exact Hin.
+      + intros d0 w dw Hd0 Hw Hdw Nr. apply before_app.
+        assert (Nvp : ~ In v (var :: P)) by (intros [X|X]; [congruence|contradiction]).
+        exact (O2 v Hv Nvp d0 w dw Hd0 Hw Hdw Nr).
+    - intros v Hv. apply I2. now right.
+    - exists (r2 ++ [d]). rewrite R2. cbn [snd st1]. now rewrite app_assoc.
+    - intros _. apply I2. now left.
+  Qed.
+
+  (* fn type_declaration_order: a declaration stands after the declaration of every type it mentions, unless that type
+     mentions it back (then the two are on a circle and stay as the search found them) *)
+  Theorem decl_order_respects_mentions v d w dw :
+    decl_of v decls = Some d -> In w (mentioned d) -> decl_of w decls = Some dw -> ~ reach w v ->
+    before dw d (type_decl_order stmts).
+  Proof.
+    intros Hd Hw Hdw Nr. unfold type_decl_order. fold decls.
+    assert (X : forall (l : list (N * stmt)) st, marked_ok [] st -> order_ok [] st -> (In (v, d) l \/ In v (fst st)) ->
+                let st' := fold_left (fun st (p : N * stmt) => visit (S (length decls)) decls (fst p) st) l st in
+                order_ok [] st' /\ In v (fst st')).
+    { induction l as [|p l IH]; intros st M O H; cbn [fold_left].
+      - split; [exact O|]. destruct H as [[]|H]; exact H.
+      - destruct (visit_order (S (length decls)) (fst p) [] st M O) as (M1 & O1 & I1 & _ & V1).
+        { intros q []. }
+        { unfold unmarked. pose proof (filter_le (fun _ => true) (fun k => negb (existsb (N.eqb k) (fst st))) (map fst decls) (fun _ _ => eq_refl)) as Y.
+          assert (Z : length (filter (fun _ : N => true) (map fst decls)) = length decls).
+          { clear. induction decls as [|x l IH]; cbn; [reflexivity|now rewrite IH]. }
+          lia. }
+        apply IH; [exact M1|exact O1|]. destruct H as [[->|H]|H]; [|now left|right; now apply I1].
+        right. apply V1. cbn [fst]. congruence. }
+    destruct (X decls ([], [])) as [O V]; [intros x []|intros x []|left|].
+    - pose proof (decl_of_spec v decls) as S. rewrite Hd in S. exact S.
+    - exact (O v V (fun X0 => X0) d w dw Hd Hw Hdw Nr).
+  Qed.
 End Order.
